@@ -192,6 +192,8 @@ def single_deviations(names, elements, edges, tier):
     heavy = [i for i in range(n) if elements[i] != 'H']
     skeleton = graph.subgraph(heavy)
     for i in heavy:
+        if graph.degree[i] == 0:
+            continue
         rest = skeleton.subgraph(set(heavy) - {i})
         if len(rest) >= 1 and nx.is_connected(rest):
             devs.append(('delete-heavy', i))
